@@ -36,6 +36,7 @@ DECLARED_OUT_OF_REACH = {
     "time_fn": "dateparser/strftime dominated", "timel_fn": "mutates its args list then calls time_fn",
     "dateformat_fn": "dateparser dominated", "property_fn": "network (wikidata) query",
     "statements_fn": "network (wikidata) query",
+    "fullurl_fn": "string methods on values of the interwiki table (sqlite cache of a network resource)",
 }
 
 # callee contracts assumed here and owned by other properties
@@ -70,7 +71,20 @@ def contracts():
             req.append("isinstance(args, dict)")
         cs.append(Contract(target="parserfns:" + name, prop="C05", mode="value", params=params,
                            requires=req, raises=[], result="str", loops=LOOPS.get(name, {})))
+    cs.append(Contract(target="core:detect_expand_template_loop", prop="C05", mode="value",
+                       params={"stack": "strlist"}, raises=[], result="bool"))
+    cs.append(Contract(target="parserfns:call_parser_function", prop="C05", mode="value",
+                       params={"ctx": "ctx", "fn_name": "str", "args": "strlist", "expander": "cb:total_str"},
+                       requires=list(CTX_FACTS), raises=[], result="str",
+                       callbacks={"fn": "parser_function"}))
     return cs
+
+
+CALLBACK_CONTRACTS = {
+    "parser_function": {"text": "every value of PARSER_FUNCTIONS is one of the functions under the totality "
+                                "contract above (checked: the dict literal's values are exactly those names)",
+                        "result": "str", "may_raise": False},
+}
 
 
 LOOPS = {
@@ -81,3 +95,4 @@ LOOPS = {
 def setup_registry(reg):
     for c in callee_contracts():
         reg.add(c)
+    reg.callback_contracts.update(CALLBACK_CONTRACTS)
